@@ -1,11 +1,34 @@
 import Model.GErrClone
 import Generated.GoGerrorGen
+import Generated.GerrorTmplBody
 import Lemmas.GoLoop
 import Lemmas.GErrClone
 import Properties.C07Tie
 import Properties.C09
 /-!
-# C09, tie A by translation
+# C09, tie A by translation: the generator's field handling, the base `Error()`, and the template's
+# `Error()` / `toPrimaryType` bodies as read on this run = the model
+
+`Generated/GoGerrorGen.lean` is rewritten by `harness/cmd/go2lean -spec gerrorgen` from
+gerror/gen/generate.go (`createField`, `createErrorDesc` from its field loop on), error_types.go
+(`filter`, `FieldsToPrint`, `FieldsToClone`), error_types.gsort.go (`Fields.Less`) and gerror.go
+(`(*GError).Error`); `Generated/GerrorTmplBody.lean` by `harness/cmd/extract-gerrtmpl` from
+gerror.gotmpl (the body of the generated `Error()` and the literal of `toPrimaryType`, as data in the
+syntax of `Model/GErrTmpl.lean`).  For ALL struct definitions, tag-library answers, field values and
+base errors:
+
+* `go_createField_eq` — translated `createField` = the model's field parser (`parseRaw`: skip / refuse /
+  `GErrClone.createField`); `go_createErrorDesc_eq` — the field loop, the `GError` test, the sort;
+* `go_filter_eq`, `go_less_eq`, `go_sort_eq`, `go_fieldsToPrint_eq`, `go_fieldsToClone_eq`, `go_pipeline_eq`;
+* `go_error_eq` — translated `(*GError).Error()` = `errorFull`;
+* `tmpl_error_eq` — the extracted template `Error()` evaluates to `extErrorFull`;
+  `tmpl_error_via_embedded` — every GError member is read through `e.GError.`;
+* `tmpl_toPrimary_eq`, `tmpl_toPrimary_copies_exactly_clone_fields`;
+* `go_error_lists_print_fields` — the property's `Error()` clause for the translated / extracted code.
+
+`structtag.Parse`, `Tags.Get`, `sort.Sort` (contract `SortOK`), `Stack.String` and `len` of a stack are
+parameters.  A change to any of the translated functions or to the template bodies changes the
+generated files, and these proofs are re-checked against them.
 -/
 set_option linter.unusedSectionVars false
 set_option linter.unusedSimpArgs false
@@ -130,13 +153,28 @@ theorem nameLt_false_iff (a b : FieldDef) : nameLt (absF b) (absF a) = false ↔
   cases strLe a.name b.name <;> simp
 
 /-- The contract of `sort.Sort` (package sort: "Sort sorts data in ascending order as determined by
-the Less method … not guaranteed to be stable") for a `Less(i, j)` that compares the elements at
-`i` and `j` with `lt`: the result is a rearrangement of the input in which no element is `lt` an
-earlier one. -/
+the Less method … not guaranteed to be stable"), for a `Less(i, j)` that compares the names of the
+elements at `i` and `j` (what the translated `Fields.Less` does, `go_less_eq`): the result is a
+rearrangement of the input in which no element's name is smaller than an earlier one's. -/
 def SortOK (env : GoGerrorGen.Env τ σ) : Prop :=
-  ∀ (lt : GoGerrorGen.Field → GoGerrorGen.Field → Bool) (less : List GoGerrorGen.Field → Nat → Nat → Go.M Bool),
-    (∀ s i j (hi : i < s.length) (hj : j < s.length), less s i j = pure (lt s[i] s[j])) →
-    ∀ l, (env.sortSort less l).Perm l ∧ (env.sortSort less l).Pairwise (fun a b => lt b a = false)
+  ∀ (less : List GoGerrorGen.Field → Nat → Nat → Go.M Bool),
+    (∀ s i j (hi : i < s.length) (hj : j < s.length), less s i j = pure (nameLt s[i] s[j])) →
+    ∀ l, (env.sortSort less l).Perm l ∧ (env.sortSort less l).Pairwise (fun a b => nameLt b a = false)
+
+theorem nameLt_false_iff' (a b : GoGerrorGen.Field) : nameLt b a = false ↔ strLe a.Name b.Name = true := by
+  unfold nameLt
+  simp only [decide_eq_false_iff_not, lt_iff_strLe]
+  cases strLe a.Name b.Name <;> simp
+
+/-- non-vacuity: merge sort by name meets the contract -/
+example : SortOK (τ := Unit) (σ := Unit)
+    ⟨fun _ => ((), false), fun _ _ => (default, false), fun _ l => l.mergeSort (fun a b => strLe a.Name b.Name),
+     fun _ => 0, fun _ => []⟩ := by
+  intro less _ l
+  refine ⟨List.mergeSort_perm l _, ?_⟩
+  have := List.pairwise_mergeSort (le := fun (a b : GoGerrorGen.Field) => strLe a.Name b.Name)
+    (fun a b c h1 h2 => strLe_trans _ _ _ h1 h2) (fun a b => strLe_total _ _) l
+  exact this.imp (fun {a b} h => (nameLt_false_iff' a b).mpr h)
 
 theorem strLe_antisymm : ∀ (a b : Str), strLe a b = true → strLe b a = true → a = b
   | [], [], _, _ => rfl
@@ -169,7 +207,7 @@ distinct (they are the field names of one struct): every algorithm that meets th
 `sort.Sort` yields the same list. -/
 theorem go_sort_eq (env : GoGerrorGen.Env τ σ) (hs : SortOK env) (l : List FieldDef) (hd : (l.map (·.name)).Nodup) :
     env.sortSort GoGerrorGen.Fields.Less (l.map absF) = (sortFields l).map absF := by
-  obtain ⟨hperm, hsorted⟩ := hs nameLt GoGerrorGen.Fields.Less go_less_eq (l.map absF)
+  obtain ⟨hperm, hsorted⟩ := hs GoGerrorGen.Fields.Less go_less_eq (l.map absF)
   have hperm2 : ((sortFields l).map absF).Perm (l.map absF) := (sortFields_perm l).map absF
   have hnames : ∀ a ∈ l, ∀ b ∈ l, a.name = b.name → a = b := by
     intro a ha b hb hab
@@ -369,5 +407,184 @@ theorem go_error_eq (env : GoGerrorGen.Env τ (List Str)) (hl : ∀ s, env.stack
   by_cases h1 : g.Name = [] <;> by_cases h2 : g.detailTag = [] <;> by_cases h3 : g.Source = [] <;>
     by_cases h4 : g.stack.length > 0 <;>
     simp [h1, h2, h3, h4, Go.str, List.append_assoc]
+
+/-! ## the template's `Error()` and `toPrimaryType` -/
+open GErrTmpl in
+theorem rangeLoop_acc (step : Locals → FieldDef → Outcome) (g : FieldDef → Str) (n : String) (rest : Locals)
+    (h : ∀ cur f, step ((n, .str cur) :: rest) f = some ((n, .str (cur ++ g f)) :: rest, none)) :
+    ∀ (fs : List FieldDef) (cur : Str),
+      rangeLoop step fs ((n, .str cur) :: rest) = some ((n, .str (cur ++ fs.flatMap g)) :: rest, none)
+  | [], cur => by simp [rangeLoop]
+  | f :: fs, cur => by
+    rw [rangeLoop, h]
+    simp only []
+    rw [rangeLoop_acc step g n rest h fs]
+    simp [List.append_assoc]
+
+open GErrTmpl in
+/-- the one `{{range}}` line of `Error()`: `<n> += fmt.Sprintf(<format>, e.<field>) + <sep>` per field -/
+theorem exec_range_append (c : Ctx) (w : Which) (n sep : String) (fmt : List FmtPiece) (cur sepv : Str)
+    (rest : Locals) (fld : Option FieldDef) (hn : (sep == n) = false)
+    (hsep : Locals.get rest sep = some (.str sepv)) (hrest : rest.filter (fun p => p.1 != n) = rest) :
+    exec c (.range w (.append n (.cat (.sprintfField fmt) (.sel (.loc sep))))) ((n, .str cur) :: rest) fld
+      = some ((n, .str (cur ++ (whichFields c.d w).flatMap (fun f => evalFmt f (c.x.val f.name) fmt ++ sepv))) :: rest, none) := by
+  rw [exec]
+  apply rangeLoop_acc
+  intro cur f
+  have h1 : Locals.get ((n, Val.str cur) :: rest) n = some (.str cur) := by simp [Locals.get]
+  have h2 : Locals.get ((n, Val.str cur) :: rest) sep = some (.str sepv) := by
+    unfold Locals.get at hsep ⊢
+    have : (n == sep) = false := by rw [Bool.eq_false_iff] at hn ⊢; intro h; apply hn; simp at h ⊢; exact h.symm
+    simp only [List.find?_cons, this, hsep]
+  simp only [exec, evalExpr, evalSel, h1, h2, Locals.set, List.filter_cons, bne_self_eq_false, Bool.false_eq_true, if_false, hrest]
+
+open GErrTmpl in
+theorem exec_range_append2 (c : Ctx) (w : Which) (n sep : String) (fmt : List FmtPiece) (cur sepv : Str)
+    (fld : Option FieldDef) (hn : (sep == n) = false) :
+    exec c (.range w (.append n (.cat (.sprintfField fmt) (.sel (.loc sep))))) [(n, .str cur), (sep, .str sepv)] fld
+      = some ([(n, .str (cur ++ (whichFields c.d w).flatMap (fun f => evalFmt f (c.x.val f.name) fmt ++ sepv))), (sep, .str sepv)], none) := by
+  apply exec_range_append c w n sep fmt cur sepv [(sep, .str sepv)] fld hn
+  · simp [Locals.get]
+  · have : (sep != n) = true := by simp [bne, hn]
+    simp [List.filter_cons, this]
+
+open GErrTmpl in
+theorem ite_L (c : Prop) [Decidable c] (a b : Str) (rest : Locals) (r : Option Val) :
+    (if c then some ((("result", Val.str a) :: rest), r) else some ((("result", Val.str b) :: rest), r))
+      = some (("result", Val.str (if c then a else b)) :: rest, r) := by split <;> rfl
+
+open GErrTmpl in
+/-- **The extracted `Error()` of the template, run on any extension value, returns the model's
+`extErrorFull`** — the base rendering with the print fields between source and message. -/
+theorem tmpl_error_eq (d : ExtDef) (x : X) (stackText : List Str → Str) :
+    GErrTmpl.run ⟨GerrorTmplBody.accessors, d, x, stackText⟩ GerrorTmplBody.errorBody
+      = some (extErrorFull d x (stackText x.base.stack)) := by
+  unfold GErrTmpl.run GerrorTmplBody.errorBody
+  obtain ⟨⟨name, msg, src, dtag, stack⟩, vals⟩ := x
+  have hr := fun c w fmt cur sepv fld => exec_range_append2 c w "result" "separator" fmt cur sepv fld (by decide)
+  simp [exec.eq_1, exec.eq_2, exec.eq_3, exec.eq_4, exec.eq_5, exec.eq_7, hr, ite_L,
+    evalExpr, evalSel, baseMember, baseField, GerrorTmplBody.accessors, Locals.get, Locals.set]
+  have hflat : ∀ (x : X) (fs : List FieldDef), fs.flatMap (fun f => evalFmt f (x.val f.name) [.printAs, .text ": ", .verbV] ++ [',', ' '])
+      = fs.flatMap (printField x) := by
+    intro x fs; congr 1; funext f; simp [evalFmt, printField]
+  rw [hflat]
+  unfold extErrorFull extError errorHead errorTail errorStackPart whichFields
+  rcases name with _ | ⟨n0, ns⟩ <;> rcases dtag with _ | ⟨d0, ds⟩ <;> rcases src with _ | ⟨s0, ss⟩ <;>
+    rcases stack with _ | ⟨k0, ks⟩ <;> simp
+
+/-- **Every member of `GError` that the template's `Error()` reads goes through the embedded field**
+(`e.GError.Name`, never `e.Name`): an extension field called `Name`, `Source`, `Message`, … cannot
+capture it.  Re-checked against the extracted body on every run. -/
+theorem tmpl_error_via_embedded : GerrorTmplBody.errorBody.viaEmbedded = true := by decide
+
+/-- what the repaired defect looked like: `"Message: " + e.Message` (no `.GError`) … -/
+def legacyMessageLine : GErrTmpl.Stmt :=
+  .seq (.decl "result" (.lit "")) (.seq (.append "result" (.cat (.lit "Message: ") (.sel (.own "Message" false)))) (.ret "result"))
+
+/-- … an extension field named `Message` captures the selector: the rendering shows the field, not
+the error's message (witness kept from /repo commit 3087b5b) -/
+theorem legacy_own_selector_captured :
+    legacyMessageLine.viaEmbedded = false ∧
+    GErrTmpl.run ⟨GerrorTmplBody.accessors, [], ⟨⟨[], "real".toList, [], [], []⟩, [("Message".toList, "field".toList)]⟩, fun _ => []⟩
+      legacyMessageLine = some "Message: field".toList := by decide
+
+/-- **The extracted `toPrimaryType` literal builds the model's `toPrimary`**: the embedded `GError` is the
+clone handed in, exactly the clone fields come from the receiver, every other field is zero. -/
+theorem tmpl_toPrimary_eq (d : ExtDef) (x : X) (gerr : E) :
+    GErrTmpl.evalPrimary GerrorTmplBody.toPrimary d x gerr = toPrimary d x gerr := by
+  simp [GErrTmpl.evalPrimary, GerrorTmplBody.toPrimary, toPrimary, GErrTmpl.whichFields]
+
+/-- `toPrimaryType` copies exactly the clone fields (restated from C09 for the extracted literal) -/
+theorem tmpl_toPrimary_copies_exactly_clone_fields (d : ExtDef) (hd : GErrClone.WellFormed d) (x : X) (gerr : E)
+    (f : FieldDef) (hf : f ∈ d) :
+    (GErrTmpl.evalPrimary GerrorTmplBody.toPrimary d x gerr).base = gerr ∧
+    (GErrTmpl.evalPrimary GerrorTmplBody.toPrimary d x gerr).val f.name = if f.clone then x.val f.name else f.zero := by
+  rw [tmpl_toPrimary_eq]
+  refine ⟨rfl, ?_⟩
+  unfold toPrimary
+  rw [GErrClone.val_map d hd _ f hf]
+  by_cases hc : f.clone = true <;> simp [GErrClone.mem_fieldsToClone, hf, hc]
+
+/-! ## the property for the translated and extracted code -/
+
+/-- **`Error()` of an extension value = the base `Error()` with the print fields spliced in**: the
+translated `(*GError).Error()` returns `head ++ tail`, the extracted template body returns
+`head ++ <print fields> ++ tail` — `head` = name/detail tag/source, `tail` = message and stack — where
+the print fields are exactly the fields tagged `print`, under their print names, sorted by field name. -/
+theorem go_error_lists_print_fields (env : GoGerrorGen.Env τ (List Str)) (hl : ∀ s, env.stackLen s = s.length)
+    (g : GoGerrorGen.GError (List Str)) (d : ExtDef) (vals : List (Str × Str)) :
+    let x : X := ⟨projE g, vals⟩
+    let head := errorHead (projE g)
+    let tail := errorTail (projE g) ++ errorStackPart (projE g) (env.stackString g.stack)
+    GoGerrorGen.GError.Error env g = pure (head ++ tail) ∧
+    GErrTmpl.run ⟨GerrorTmplBody.accessors, d, x, env.stackString⟩ GerrorTmplBody.errorBody
+      = some (head ++ (fieldsToPrint d).flatMap (printField x) ++ tail) ∧
+    (fieldsToPrint d).Perm (d.filter (·.print)) ∧
+    (fieldsToPrint d).Pairwise (fun a b => strLe a.name b.name = true) := by
+  refine ⟨?_, ?_, GErrClone.print_fields_exact d⟩
+  · rw [go_error_eq env hl g]; simp [errorFull, List.append_assoc]
+  · rw [tmpl_error_eq]; simp [extErrorFull, extError, List.append_assoc, projE]
+
+theorem sortFields_eq_of_perm (l1 l2 : List FieldDef) (hp : l1.Perm l2) (hd : (l1.map (·.name)).Nodup) :
+    sortFields l1 = sortFields l2 := by
+  apply List.Perm.eq_of_pairwise (le := fun a b => strLe a.name b.name = true) _ (sortFields_sorted l1) (sortFields_sorted l2)
+    ((sortFields_perm l1).trans (hp.trans (sortFields_perm l2).symm))
+  intro a b ha hb h1 h2
+  have ha' : a ∈ l1 := (sortFields_perm l1).mem_iff.mp ha
+  have hb' : b ∈ l1 := hp.mem_iff.mpr ((sortFields_perm l2).mem_iff.mp hb)
+  exact eq_of_nodup_map (·.name) l1 hd a ha' b hb' (strLe_antisymm _ _ h1 h2)
+
+theorem filter_parse_tagged (rs : List RawField) (p : FieldDef → Bool) (hp : ∀ r, tagged r = false → p (createField r) = false) :
+    (parseFields (rs.filter tagged)).filter p = (parseFields rs).filter p := by
+  unfold parseFields
+  induction rs with
+  | nil => rfl
+  | cons r rs ih =>
+    by_cases ht : tagged r = true
+    · simp only [List.filter_cons, ht, if_true, List.map_cons]; split <;> simp [ih]
+    · have := hp r (by simpa using ht)
+      simp only [List.filter_cons, ht, List.map_cons, this]; simpa using ih
+
+theorem untagged_flags (r : RawField) (h : tagged r = false) :
+    (createField r).print = false ∧ (createField r).clone = false := by
+  unfold tagged at h
+  unfold createField
+  cases hn : r.tagName with
+  | none => simp
+  | some n => simp [hn] at h
+
+/-- **From the struct to the printed and cloned fields, all translated**: when the generator accepts
+the struct, the translated `createErrorDesc` yields a description on which the translated
+`FieldsToPrint` / `FieldsToClone` return the model's `fieldsToPrint` / `fieldsToClone` of the model's
+`parseFields` — for every struct with distinct field names, every behaviour of the tag library and
+every sorting algorithm within the contract of `sort.Sort`. -/
+theorem go_pipeline_eq (env : GoGerrorGen.Env τ σ) (hs : SortOK env) (z : GoGerrorGen.Var × Str → Str)
+    (strukt : List (GoGerrorGen.Var × Str)) (tn : Str)
+    (hd : ((parseFields (raws env z strukt)).map (·.name)).Nodup)
+    (hok : (raws env z strukt).any isBad = false) (hg : strukt.any isGErr = true) :
+    ∃ desc, GoGerrorGen.createErrorDesc env strukt tn = pure (some desc, none) ∧
+      GoGerrorGen.ErrorDesc.FieldsToPrint env desc = pure ((fieldsToPrint (parseFields (raws env z strukt))).map absF) ∧
+      GoGerrorGen.ErrorDesc.FieldsToClone env desc = pure ((fieldsToClone (parseFields (raws env z strukt))).map absF) := by
+  have hsub : ((parseFields ((raws env z strukt).filter tagged)).map (·.name)).Nodup := by
+    unfold parseFields at hd ⊢
+    exact (((List.filter_sublist (p := tagged) (l := raws env z strukt)).map _).map _).nodup hd
+  refine ⟨⟨tn, (sortFields (parseFields ((raws env z strukt).filter tagged))).map absF⟩, ?_, ?_, ?_⟩
+  · rw [go_createErrorDesc_eq env hs z strukt tn hsub]; simp only [hok, hg, Bool.false_eq_true, if_false, Bool.not_true]
+  · have hd2 : ((sortFields (parseFields ((raws env z strukt).filter tagged))).map (·.name)).Nodup :=
+      ((sortFields_perm _).map _).nodup_iff.mpr hsub
+    rw [go_fieldsToPrint_eq env hs tn _ hd2]
+    congr 2
+    unfold fieldsToPrint
+    rw [← filter_parse_tagged _ _ (fun r h => (untagged_flags r h).1)]
+    exact (sortFields_eq_of_perm _ _ ((sortFields_perm _).filter _)
+      (nodup_names_filter _ _ hd2))
+  · have hd2 : ((sortFields (parseFields ((raws env z strukt).filter tagged))).map (·.name)).Nodup :=
+      ((sortFields_perm _).map _).nodup_iff.mpr hsub
+    rw [go_fieldsToClone_eq env hs tn _ hd2]
+    congr 2
+    unfold fieldsToClone
+    rw [← filter_parse_tagged _ _ (fun r h => (untagged_flags r h).2)]
+    exact (sortFields_eq_of_perm _ _ ((sortFields_perm _).filter _)
+      (nodup_names_filter _ _ hd2))
 
 end C09Tie
